@@ -727,8 +727,9 @@ fn viol_key(class: &str, sh: &Shape) -> String {
 }
 
 /// One compile on a thread of its own, so that std's per-thread hash keys (drawn from the shimmed
-/// getrandom) do not depend on what the worker compiled before: the verdict is a function of
-/// (design, VERIF_HASH_SEED).
+/// getrandom) do not depend on what the worker compiled before: the result is a function of
+/// (design, VERIF_HASH_SEED). A fresh thread costs 15-35 ms against 2.5 ms for the compile itself, so the
+/// sweep compiles on its worker threads and only failures are confirmed this way.
 fn compile_fresh(path: &std::path::Path) -> Result<Vec<u8>, fcx::Failure> {
     std::thread::scope(|s| {
         s.spawn(|| fcx::compile(path, &fcx::Opts::default(), None))
@@ -762,7 +763,9 @@ fn pairpos_formats(bytes: &[u8]) -> Result<(usize, usize), String> {
 
 const LEVEL_NAMES: [&str; 5] = ["glyph-glyph", "glyph-group", "group-glyph", "group-group", "none(0)"];
 
-fn evaluate(d: &Design) -> EvalOut {
+/// `fresh`: compile on a thread of its own (deterministic hash keys, ~10x dearer — used to confirm a
+/// failure and in replays); otherwise on the calling worker thread.
+fn evaluate(d: &Design, fresh: bool) -> EvalOut {
     let mut out = EvalOut { viol: vec![], machinery: vec![], stats: Stats::default(), summary: Value::Null };
     let st = &mut out.stats;
     st.cases = 1;
@@ -845,7 +848,7 @@ fn evaluate(d: &Design) -> EvalOut {
         }
     };
     let t_write = tp.elapsed();
-    let r = compile_fresh(&path);
+    let r = if fresh { compile_fresh(&path) } else { fcx::compile(&path, &fcx::Opts::default(), None) };
     let t_compile = tp.elapsed();
     drop(sc);
     let t_drop = tp.elapsed();
@@ -1090,7 +1093,7 @@ fn replay(path: &std::path::Path) -> ! {
     for (mi, m) in d.masters.iter().enumerate() {
         println!("master {mi} at {:?}: groups {:?} kerning {:?}", m.loc, m.groups, m.kerning);
     }
-    let out = evaluate(&d);
+    let out = evaluate(&d, true);
     for m in &out.machinery {
         println!("machinery: {m}");
     }
@@ -1166,7 +1169,7 @@ fn bench() -> ! {
         println!("kerning={with_kern}: write cpu {:.2} ms wall {:.2} ms", (cpu_now() - c0) * 20.0, t0.elapsed().as_secs_f64() * 20.0);
         let (c0, t0) = (cpu_now(), std::time::Instant::now());
         for _ in 0..50 {
-            let _ = evaluate(&d);
+            let _ = evaluate(&d, false);
         }
         println!("kerning={with_kern}: evaluate cpu {:.2} ms wall {:.2} ms", (cpu_now() - c0) * 20.0, t0.elapsed().as_secs_f64() * 20.0);
     }
@@ -1238,8 +1241,21 @@ fn main() {
                 continue;
             }
             let d = build_design(case);
-            let ev = evaluate(&d);
+            let mut ev = evaluate(&d, false);
             add_stats(&mut stt, &ev.stats);
+            if !ev.viol.is_empty() {
+                // confirm under hash keys that are a function of the seed alone (what a replay will see)
+                let again = evaluate(&d, true);
+                if again.viol.is_empty() && again.machinery.is_empty() {
+                    for v in ev.viol.iter_mut() {
+                        v.0 = format!("{}:only-under-some-hash-orders", v.0);
+                        v.1 = format!("{} (NOT reproduced when the same source is compiled on a fresh thread: the outcome depends on hash iteration order)", v.1);
+                    }
+                } else {
+                    ev.viol = again.viol;
+                    ev.machinery.extend(again.machinery);
+                }
+            }
             machinery.extend(ev.machinery.into_iter().map(|m| format!("{m} [{}]", case.label())));
             if (bi * 31 + ci) % 4099 == 7 && ev.viol.is_empty() {
                 samples.push(json!({"sub_space": sub.name, "source": case.label(), "result": ev.summary}));
